@@ -1,5 +1,6 @@
 import LokiModel.Props.C17
 import LokiModel.C18.Att
+import LokiModel.C17.Attrs
 /-!
 # C18 — pickling round trip (property theorems on the C17 heap model in pickle mode)
 -/
@@ -42,6 +43,12 @@ theorem unpickle_attached (f : Nat) (h : Heap) (u : Addr) (hi : Inv h) (ha : Att
 /-- a heap without cells owned by the copy satisfies `AttInv` (what the exporter produces) -/
 theorem attInv_of_fresh (h : Heap) (hf : ∀ (a : Nat) (c : Cell), h.cells[a]? ≠ some (2, c)) : AttInv h :=
   Or.inr fun a _ _ _ _ hc => absurd hc (hf a _)
+
+/-- the round trip keeps kind, name and the attribute record of the unit (its parent is dropped) -/
+theorem unpickle_attrs (f : Nat) (h : Heap) (u : Addr) {isMod : Bool} {name : String} {attrs : List String} {p : Option Addr} {t : Addr}
+    {secs mems : List Addr} (e : h.get u = some (.unit isMod name attrs p t secs mems)) :
+    ∃ t' secs' mems', (unpickle (f + 1) h u).1.get (unpickle (f + 1) h u).2 = some (.unit isMod name attrs none t' secs' mems') :=
+  copyUnit_attrs pickleMode f h none u e
 
 /-- **nothing mutable is shared with the original** (partial): what is reachable from the original (owner 1) and from the unpickled
 copy (owner 2) through strong references and typedef links is environment only — given the typedef links respect ownership
